@@ -87,6 +87,7 @@ func setAlgebra[S ~map[int]struct{}](x *cx, sets []S, tn string) {
 	ol := guardOuter(sets, sentSet)
 	callerSets := sets
 	sets = ol.s
+	viaResult := false
 	unchanged := func(fn string) bool {
 		if why := ol.changed(sameMap[S]); why != "" {
 			x.fail(fn+"-modified-arguments", fmt.Sprintf("%s%s modified the caller's variadic argument slice: %s", fn, in, why), nil)
@@ -105,10 +106,58 @@ func setAlgebra[S ~map[int]struct{}](x *cx, sets []S, tn string) {
 		x.observe("argument integrity", fn)
 		for i, s := range sets {
 			if !eqSet(s, before[i]) || (s == nil) != wasNil[i] {
-				x.fail(fn+"-modified-input", fmt.Sprintf("%s%s modified input set %d (now %s)", fn, in, i, showSet(s)), nil)
+				if viaResult {
+					x.fail(fn+"-result-aliases-input", fmt.Sprintf("%s%s: adding an item to / emptying the returned set changed input set %d (now %s): the result is an input set itself, which the documentation does not promise", fn, in, i, showSet(s)), map[string]any{"fn": fn, "input": in})
+				} else {
+					x.fail(fn+"-modified-input", fmt.Sprintf("%s%s modified input set %d (now %s)", fn, in, i, showSet(s)), nil)
+				}
 				return false
 			}
 		}
+		return true
+	}
+	// indep: result independence and usability of a returned set: it accepts an Add, emptying it
+	// leaves the inputs alone, and changing the inputs afterwards does not show in a result.
+	const addKey, inputKey = -777, -888
+	indep := func(fn string, got S, want map[int]struct{}, recall func() S) bool {
+		if x.failed {
+			return false
+		}
+		x.evals++
+		if p := vkit.Try(func() { got[addKey] = struct{}{} }); p != nil {
+			x.fail(fn+"-result-unusable", fmt.Sprintf("%s%s returned %s; adding an item to the returned set panicked: %s", fn, in, showSet(got), p.Msg), map[string]any{"fn": fn, "input": in})
+			return false
+		}
+		for k := range want {
+			delete(got, k)
+		}
+		viaResult = true
+		ok := unchanged(fn)
+		viaResult = false
+		if !ok {
+			return false
+		}
+		var r2 S
+		if p := x.try(fn, func() { r2 = recall() }); p != nil {
+			x.unexpectedPanic(fn, p, in)
+			return false
+		}
+		for _, s := range sets {
+			if s != nil {
+				s[inputKey] = struct{}{}
+			}
+		}
+		_, leaked := r2[inputKey]
+		for _, s := range sets {
+			if s != nil {
+				delete(s, inputKey)
+			}
+		}
+		if leaked {
+			x.fail(fn+"-result-aliases-input", fmt.Sprintf("%s%s: an item added to an input set after the call shows up in the returned set: the result is an input set itself, which the documentation does not promise", fn, in), map[string]any{"fn": fn, "input": in})
+			return false
+		}
+		x.observe("result independence", fn)
 		return true
 	}
 	// reference
@@ -141,6 +190,9 @@ func setAlgebra[S ~map[int]struct{}](x *cx, sets []S, tn string) {
 	if !unchanged("xmaps.Union") {
 		return
 	}
+	if !indep("xmaps.Union", got, union, func() S { return xmaps.Union(sets...) }) {
+		return
+	}
 
 	p = x.try("xmaps.Intersection", func() { got = xmaps.Intersection(sets...) })
 	x.eval(nt("Intersection"))
@@ -156,6 +208,15 @@ func setAlgebra[S ~map[int]struct{}](x *cx, sets []S, tn string) {
 	}
 	if !unchanged("xmaps.Intersection") {
 		return
+	}
+	{
+		want := inter
+		if len(sets) == 0 {
+			want = map[int]struct{}{}
+		}
+		if !indep("xmaps.Intersection", got, want, func() S { return xmaps.Intersection(sets...) }) {
+			return
+		}
 	}
 
 	var gotB bool
@@ -190,7 +251,9 @@ func setAlgebra[S ~map[int]struct{}](x *cx, sets []S, tn string) {
 			x.wrong("xmaps.Difference", in, showSet(got), showSet(diff))
 			return
 		}
-		unchanged("xmaps.Difference")
+		if unchanged("xmaps.Difference") {
+			indep("xmaps.Difference", got, diff, func() S { return xmaps.Difference(sets[0], sets[1]) })
+		}
 	}
 }
 
